@@ -161,6 +161,25 @@ def explore(ctx):
             if p.returncode == 0 or p.stdout != b'' or b'panicked' in p.stderr or p.stderr == b'':
                 failures.append({'kind': 'spec', 'what': 'invalid output option %r not rejected cleanly before reading input (rc=%s stdout=%r)' % (args, p.returncode, p.stdout[:60]),
                                  'payload': {'args': args, 'stderr': p.stderr.decode()[-300:]}})
+    # the same selection logic against the model of main()/parse_output (Cli.v), on a grid of -o / --format values
+    import sexp as _sx
+    outs_ = [None, 'json', 'logfmt', 'legacy', 'json=', 'legacy=x', 'logfmt=', 'format', 'format=', 'format={a}', 'format=a=b', 'format==', 'fmt={a}', 'JSON', ' json', 'json ', '=json', '', 'legacy=legacy']
+    fmts_ = [None, '', '{a}', 'x=y']
+    grid = [(o_, f_) for o_ in outs_ for f_ in fmts_]
+    mres = aglib.run_model_many([_sx.dumps([_sx.Sym('cli'), _sx.Sym('none') if o_ is None else o_, _sx.Sym('none') if f_ is None else f_]) for o_, f_ in grid])
+    for (o_, f_), m in zip(grid, mres):
+        evals += 1
+        args = ([] if o_ is None else ['-o', o_]) + ([] if f_ is None else ['--format', f_])
+        p = subprocess.run([aglib.AGRIND, '* | json'] + args, input=b'{"a": 1}\n', stdout=subprocess.PIPE, stderr=subprocess.PIPE, env=aglib.ENV, timeout=20)
+        accepted = p.returncode == 0
+        model_accepts = not (isinstance(m, _sx.Sym) and str(m) == 'reject')
+        if b'panicked' in p.stderr:
+            failures.append({'kind': 'spec', 'what': 'output options %r crash' % (args,), 'payload': {'args': args, 'stderr': p.stderr.decode()[-300:]}})
+        elif accepted != model_accepts:
+            failures.append({'kind': 'corr', 'what': 'output options %r: implementation %s, model of main() %s' % (args, 'accepts' if accepted else 'rejects', _sx.dumps(m)),
+                             'payload': {'args': args, 'stderr': p.stderr.decode()[-300:]}})
+        elif not accepted and p.stdout != b'':
+            failures.append({'kind': 'spec', 'what': 'rejected output options %r still produced output' % (args,), 'payload': {'args': args}})
     kinds = {}
     for r in jres:
         kinds[r['model']['kind']] = kinds.get(r['model']['kind'], 0) + 1
@@ -169,7 +188,7 @@ def explore(ctx):
         'rule': 'rows and tables with every value type incl. nested, NaN/inf (division by zero, overflow), keys needing JSON escaping, through -o json (validity, exact fields, column order, lossless values), '
                 '-o logfmt and -o format=<template> (exact text against the model, literal text intact), and the CLI matrix of output options; non-trivial = a nested value in the output',
         'samples': samples_of(jcases[:2]) + [{'query': c.query, 'mode': c.mode} for c in tcases[:2]],
-        'text_cases_unmodelled': unm, 'model_outcomes': kinds, 'cli_cases': len(cli),
+        'text_cases_unmodelled': unm, 'model_outcomes': kinds, 'cli_cases': len(cli) + len(grid),
         'model_vs_impl_disagreements': sum(1 for r in jres if r['corr']),
     }
     return {'coverage': cov, 'failures': failures}
